@@ -8619,8 +8619,8 @@ wp_mod_main:
 					fmt_uint = 1;
 					if (l && (flags & FLAG_HASH))
 					{
-						/* A nonzero value is prefixed with 0x */
-						fmt_prefix = HAWK_T("0x");
+						/* A nonzero value is prefixed with 0x or 0X */
+						fmt_prefix = (fmt[i] == 'X')? HAWK_T("0X"): HAWK_T("0x");
 					}
 					break;
 
@@ -9500,8 +9500,8 @@ wp_mod_main:
 					fmt_uint = 1;
 					if (l && (flags & FLAG_HASH))
 					{
-						/* A nonzero value is prefixed with 0x */
-						fmt_prefix = HAWK_BT("0x");
+						/* A nonzero value is prefixed with 0x or 0X */
+						fmt_prefix = (fmt[i] == HAWK_BT('X'))? HAWK_BT("0X"): HAWK_BT("0x");
 					}
 					break;
 
